@@ -84,7 +84,7 @@ def build():
         # the definition lives in the shared prelude; each instantiation is one unit (type alias)
         plan.append((base, label, src.replace("@", base), params, opts, insts))
         for k, (args, ty) in enumerate(insts):
-            units.append(corpus.Unit("%sI%d" % (base, k), "pub type %sI%d = %s;" % (base, k, ty), [], serde=False, meta={"def": base, "args": args}))
+            units.append(corpus.Unit("%sI%d" % (base, k), "pub type %sI%d = %s;" % (base, k, ty), [], serde=False, meta={"def": base, "args": args, "group": base}))
     # names of argument types and defaults
     for n, a in enumerate(ARGS + ["Vec<Inner>", "Vec<String>", "Vec<i32>", "Vec<Vec<u64>>", "Vec<Gen<Inner>>", "Vec<Option<bool>>", "Vec<[u8; 64]>", "Vec<(i32, [bool; 3])>"]):
         units.append(corpus.Unit("A%d" % n, "pub type A%d = %s;" % (n, a), [], serde=False, meta={"arg": a}))
